@@ -372,11 +372,11 @@ def cli_bitmap_problems(fmt, viewbox, res, by_flag, result):
 
 
 def gen_vf(rng, i=None):
-    i = rng.randrange(2) if i is None else i
-    return {"keep_names": i % 2 == 1}
+    i = rng.randrange(4) if i is None else i
+    return {"keep_names": i % 2 == 1, "otf": i % 4 >= 2}
 
 
-def run_vf(keep_names):
+def run_vf(keep_names, otf=False):
     from fontTools import ttLib
 
     repo_src = next((p for p in sys.path if p.endswith("/src") and os.path.isdir(os.path.join(p, "nanoemoji"))), "/repo/src")
@@ -387,7 +387,7 @@ def run_vf(keep_names):
                 f'<svg xmlns="http://www.w3.org/2000/svg" viewBox="0 0 100 100"><rect x="{x}" y="20" width="{w}" height="50" fill="#C02040"/></svg>'
             )
         open(os.path.join(d, "c.toml"), "w").write(
-            'output_file = "VF.ttf"\ncolor_format = "glyf_colr_1"\n'
+            ('output_file = "VF.otf"\ncolor_format = "cff2_colr_1"\n' if otf else 'output_file = "VF.ttf"\ncolor_format = "glyf_colr_1"\n')
             + ("keep_glyph_names = true\n" if keep_names else "")
             + '[axis.wght]\nname = "Weight"\ndefault = 400\n[master.thin]\nstyle_name = "Thin"\nsrcs = ["thin/*.svg"]\n[master.thin.position]\nwght = 400\n'
             + '[master.bold]\nstyle_name = "Bold"\nsrcs = ["bold/*.svg"]\n[master.bold.position]\nwght = 700\n'
@@ -395,10 +395,11 @@ def run_vf(keep_names):
         env = dict(os.environ, PYTHONPATH=repo_src, PATH="/venv/bin:" + os.environ.get("PATH", ""))
         r = subprocess.run([sys.executable, "-m", "nanoemoji.nanoemoji", "--build_dir", os.path.join(d, "build"), "c.toml"], cwd=d, env=env, capture_output=True, text=True, timeout=900)
         out = {"exit": r.returncode, "stderr": (r.stdout + r.stderr)[-600:]}
-        p = os.path.join(d, "build", "VF.ttf")
+        p = os.path.join(d, "build", "VF.otf" if otf else "VF.ttf")
         if r.returncode == 0 and os.path.exists(p):
             f = ttLib.TTFont(p)
             out["post"] = f["post"].formatType
+            out["outlines"] = sorted(t for t in ("glyf", "CFF ", "CFF2") if t in f)
             out["has_fvar"] = "fvar" in f
             out["cmap"] = sorted(f.getBestCmap())
     return out
